@@ -699,5 +699,5 @@ func c11ReusedTimersDrained(p *P, r *R) {
 				"a tick left in the channel makes the next deadline wait on this timer end immediately (a timeout reported early)")
 		}
 	}
-	r.count("R11.8", "Stop() calls on reused timers", n, 2)
+	r.count("R11.8", "Stop() calls on reused timers", n, 1)
 }
